@@ -39,7 +39,7 @@ def configure(tier, avoid):
     quick = tier == 'quick'
     p = gen.Params(max_stmts=14 if quick else 28, max_depth=2 if quick else 3,
                    expr_depth=2, max_procs=2, empty_blocks=0.25,
-                   unique_literals=True, avoid=avoid, edgy=0.02,
+                   unique_literals=True, avoid=avoid, edgy=0.02, dead_code=0.3,
                    error_rate=0.1)
     return {'examples': 300 if quick else 5000, 'params': p,
             'bounds': {'configs': [X.cfg_name(c) for c in CONFIGS]},
